@@ -29,7 +29,7 @@ pub fn property() -> Property {
 }
 
 const CERTS: [&str; 4] = ["good", "selfsigned", "unknown", "expired"];
-const PLACEMENTS: [&str; 5] = ["session", "request", "clone", "session-toggled", "request-toggled"];
+const PLACEMENTS: [&str; 6] = ["session", "request", "clone", "session-toggled", "request-toggled", "shared-then-setter"];
 
 fn direct_cells() -> u64 {
     (CERTS.len() * 2 * 2 * 2 * 2 * PLACEMENTS.len()) as u64
@@ -40,6 +40,7 @@ fn gens(tier: Tier) -> Vec<Gen> {
         Gen { name: "direct", count: direct_cells(), exhaustive: true, run: run_direct },
         Gen { name: "connect-proxy", count: direct_cells(), exhaustive: true, run: run_connect_proxy },
         // https proxy: proxy certificate {good for pgood.test, wrong name, selfsigned} x origin cells (strided in quick)
+        Gen { name: "pinned-leaf", count: 2 * 2 * 2 * 2 * 3, exhaustive: true, run: run_pinned },
         Gen { name: "https-proxy", count: tier.pick(direct_cells(), direct_cells() * 3), exhaustive: tier == Tier::Thorough, run: run_https_proxy },
     ]
 }
@@ -52,6 +53,8 @@ struct Cell {
     names_off: bool,
     root_added: bool,
     placement: &'static str,
+    /// which fixture certificate `add_root_certificate` gets
+    root: &'static str,
 }
 
 fn cell(index: u64) -> Cell {
@@ -66,7 +69,7 @@ fn cell(index: u64) -> Cell {
     i /= 2;
     let name_matches = i % 2 == 0;
     i /= 2;
-    Cell { cert: CERTS[i % 4], name_matches, certs_off, names_off, root_added, placement }
+    Cell { cert: CERTS[i % 4], name_matches, certs_off, names_off, root_added, placement, root: "ca" }
 }
 
 /// truth table for one handshake
@@ -100,7 +103,7 @@ fn build(c: &Cell, url: &str, proxy: Option<ProxySettings>) -> Built {
         s.danger_accept_invalid_certs(c.certs_off);
         s.danger_accept_invalid_hostnames(c.names_off);
         if c.root_added {
-            s.add_root_certificate(tlsfix::load_cert("ca"));
+            s.add_root_certificate(tlsfix::load_cert(c.root));
         }
     };
     match c.placement {
@@ -114,7 +117,7 @@ fn build(c: &Cell, url: &str, proxy: Option<ProxySettings>) -> Built {
         "request" => {
             let mut rb = base.post(url).danger_accept_invalid_certs(c.certs_off).danger_accept_invalid_hostnames(c.names_off);
             if c.root_added {
-                rb = rb.add_root_certificate(tlsfix::load_cert("ca"));
+                rb = rb.add_root_certificate(tlsfix::load_cert(c.root));
             }
             // sibling created AFTER from the same session
             Built { target: rb, unaffected: base.post(url) }
@@ -124,6 +127,19 @@ fn build(c: &Cell, url: &str, proxy: Option<ProxySettings>) -> Built {
             apply_s(&mut cl);
             Built { target: cl.post(url), unaffected: base.post(url) }
         }
+        "shared-then-setter" => {
+            // the settings are shared with live requests when unrelated setters run (on the session
+            // and on the request): the copies made at those moments carry every flag unchanged
+            let before = base.post(url);
+            let mut s = base;
+            apply_s(&mut s);
+            let alive = s.post(url);
+            s.max_redirections(7);
+            let alive2 = s.get(url);
+            let target = s.post(url).read_timeout(std::time::Duration::from_secs(5)).follow_redirects(true);
+            drop((alive, alive2));
+            Built { target, unaffected: before }
+        }
         "session-toggled" => {
             // every flag is first switched on and then set to its final value: only the last call counts
             let before = base.post(url);
@@ -131,7 +147,7 @@ fn build(c: &Cell, url: &str, proxy: Option<ProxySettings>) -> Built {
             // one flag gets its final value first; the other is switched on and then set to its
             // final value afterwards (the first must not be disturbed by that)
             if c.root_added {
-                s.add_root_certificate(tlsfix::load_cert("ca"));
+                s.add_root_certificate(tlsfix::load_cert(c.root));
             }
             if c.cert.len() % 2 == 0 {
                 s.danger_accept_invalid_hostnames(c.names_off);
@@ -151,7 +167,7 @@ fn build(c: &Cell, url: &str, proxy: Option<ProxySettings>) -> Built {
                 base.post(url).danger_accept_invalid_certs(c.certs_off).danger_accept_invalid_hostnames(true).danger_accept_invalid_hostnames(c.names_off)
             };
             if c.root_added {
-                rb = rb.add_root_certificate(tlsfix::load_cert("ca"));
+                rb = rb.add_root_certificate(tlsfix::load_cert(c.root));
             }
             Built { target: rb, unaffected: base.post(url) }
         }
@@ -344,4 +360,47 @@ fn run_https_proxy(ctx: &mut Ctx, _rng: &mut Rng, index: u64) {
     }
     ctx.nontrivial(format!("httpsproxy{pkind}{c:?}").as_bytes());
     ctx.sample(|| json!({"path": "https-proxy", "proxy_certificate": proxy_cert, "proxy_addressed_as": proxy_host, "cell": format!("{c:?}"), "target_expected_ok": exp_t, "target_outcome": out.error}));
+}
+
+/// the server's own self-signed certificate is added as a root ("pinning"). Whether such a leaf
+/// is anchored is backend-specific and not judged; what is judged: the validity period and the
+/// name are still enforced, and switching certificate checks off accepts everything.
+fn run_pinned(ctx: &mut Ctx, _rng: &mut Rng, index: u64) {
+    let mut i = index as usize;
+    let placement = ["session", "request", "shared-then-setter"][i % 3];
+    i /= 3;
+    let names_off = i % 2 == 1;
+    i /= 2;
+    let certs_off = i % 2 == 1;
+    i /= 2;
+    let name_matches = i % 2 == 0;
+    i /= 2;
+    let cert = ["selfsigned", "expiredself"][i % 2];
+    let c = Cell { cert, name_matches, certs_off, names_off, root_added: true, placement, root: cert };
+    let host = host_for(name_matches);
+    let url = format!("https://{host}/c14");
+    let built = build(&c, &url, None);
+    let mk = || {
+        let srv = origin_server(cert);
+        set_resolver_override(host, Some(vec![SocketAddr::from(([127, 0, 0, 1], srv.port))]));
+        srv
+    };
+    let srv = mk();
+    let out = outcome(built.target.text("c14 body").send());
+    let saw = saw_request(&srv.finish());
+    let descr = || format!("direct, pinned leaf: cell {c:?} (the certificate the server presents was itself added as a root)");
+    ctx.count("path_pinned_leaf", 1);
+    if certs_off {
+        judge(ctx, "target", true, true, &out, saw, &descr);
+    } else if cert == "expiredself" || (!name_matches && !names_off) {
+        judge(ctx, "target", false, false, &out, saw, &descr);
+    } else {
+        // in its validity period, name waived or matching: anchoring a leaf is backend-specific
+        ctx.count(if out.ok { "pinned_valid_leaf_accepted" } else { "pinned_valid_leaf_refused" }, 1);
+    }
+    let srv = mk();
+    let out_u = outcome(built.unaffected.text("c14 body").send());
+    let saw_u = saw_request(&srv.finish());
+    judge(ctx, "sibling-or-original", false, false, &out_u, saw_u, &|| format!("direct, pinned leaf: cell {c:?} (request created before the root was added: defaults apply)"));
+    ctx.nontrivial(format!("pinned{c:?}").as_bytes());
 }
